@@ -12,7 +12,7 @@ BLOB = (400, 1600)
 LINE_TAGS = [b"tag", b"x", b"Hello", b"+EVT: 1", b"t,q"]
 RULE = ("Hypothesis byte-backed generator: event histories (ring capacity 1 and 3; automatic, scripted, chained and immediately failing events) concurrent with "
         "0-3 command lines whose handlers use multi-step return codes and HOLD (released on stall or by HOLD_EXIT from an event handler), read availability "
-        "patterns and write back-pressure; no command lists, payloads non-empty and newline-free so a live tokeniser is unambiguous. cat_is_busy and cat_is_hold "
+        "patterns and write back-pressure; events on commands that lines use, histories that end inside a line, disable flags of event commands flipped at generated steps (an accepted event is delivered whole); no command lists, payloads non-empty and newline-free so a live tokeniser is unambiguous. cat_is_busy and cat_is_hold "
         "are sampled after EVERY service step. Oracle: a sample busy==OK requires (i) every input line of which a non-CR/LF byte has been consumed has its result "
         "code completely emitted and (ii) the output so far ends on a unit boundary (both producers); conversely cat_service==OK with no partial line requires "
         "busy==OK; is_hold==HOLD exactly from the step in which a command handler returned HOLD up to the step in which a release request is made. "
